@@ -207,23 +207,30 @@ theorem foldl_set_idx {α : Type} (f : Nat → α → α) (d : α) (l : List α)
   · simp [hj, List.getD_eq_getElem?_getD]
   · simp [hj]
 
+theorem set_getD_self {α : Type} (l : List α) (i : Nat) (d : α) : l.set i (l.getD i d) = l := by
+  apply List.ext_getElem?
+  intro j
+  grind
+
+theorem set_getD_self' {α : Type} (l : List α) (i : Nat) (d : α) : l.set i (l[i]?.getD d) = l := by
+  rw [← List.getD_eq_getElem?_getD]; exact set_getD_self l i d
+
+/-- replace the step function of a fold by an extensionally equal one (the generated step is
+    matched by unification, so the proof does not depend on how the Go code spells it) -/
+theorem foldl_step_congr {σ ι : Type} (F G : σ → ι → σ) (h : ∀ a i, F a i = G a i) (xs : List ι) (a : σ) :
+    xs.foldl F a = xs.foldl G a := by
+  have : F = G := funext fun a => funext fun i => h a i
+  rw [this]
+
 theorem removeTarget_eq (A : Archetype) (e : Ent) (hlen : A.isRel.length = A.relationTables.length) :
     archetype_RemoveTarget (ofArch A) e = ofArch (A.removeTarget e) := by
   unfold archetype_RemoveTarget Archetype.removeTarget
-  have hstep : ∀ (a : G_archetype) (i : Nat),
-      (if (!(a.isRelation.getD i false)) = true then a
-       else ({ a with relationTables := a.relationTables.set i (AL.erase (a.relationTables.getD i []) e.id) } : G_archetype)) =
-      ({ a with relationTables := a.relationTables.set i (if a.isRelation.getD i false = true then AL.erase (a.relationTables.getD i []) e.id else a.relationTables.getD i []) } : G_archetype) := by
-    intro a i
-    cases hr : a.isRelation.getD i false
-    · simp only [Bool.not_false, if_true, Bool.false_eq_true, if_false]
-      have : a.relationTables.set i (a.relationTables.getD i []) = a.relationTables := by
-        apply List.ext_getElem?
-        intro j
-        grind
-      rw [this]
-    · simp
-  simp only [hstep]
+  simp only [ofArch]
+  rw [foldl_step_congr _ (fun (a : G_archetype) i =>
+        ({ a with relationTables := a.relationTables.set i (if a.isRelation.getD i false = true then AL.erase (a.relationTables.getD i []) e.id else a.relationTables.getD i []) } : G_archetype))
+      (by
+        intro a i
+        cases hr : a.isRelation.getD i false <;> simp [hr, set_getD_self'])]
   have hfold : ∀ (xs : List Nat) (a : G_archetype),
       xs.foldl (fun (a : G_archetype) i =>
         ({ a with relationTables := a.relationTables.set i (if a.isRelation.getD i false = true then AL.erase (a.relationTables.getD i []) e.id else a.relationTables.getD i []) } : G_archetype)) a =
@@ -232,7 +239,6 @@ theorem removeTarget_eq (A : Archetype) (e : Ent) (hlen : A.isRel.length = A.rel
     induction xs with
     | nil => intro a; rfl
     | cons x xs ih => intro a; rw [List.foldl_cons, ih, List.foldl_cons]
-  simp only [ofArch]
   rw [hfold]
   simp only
   rw [foldl_set_idx (fun i m => if A.isRel.getD i false = true then AL.erase m e.id else m) [] A.relationTables]
@@ -249,14 +255,6 @@ theorem removeTarget_eq (A : Archetype) (e : Ent) (hlen : A.isRel.length = A.rel
 
 
 /-! ### `removeTableRelations`, `AddTable` -/
-
-theorem set_getD_self {α : Type} (l : List α) (i : Nat) (d : α) : l.set i (l.getD i d) = l := by
-  apply List.ext_getElem?
-  intro j
-  grind
-
-theorem set_getD_self' {α : Type} (l : List α) (i : Nat) (d : α) : l.set i (l[i]?.getD d) = l := by
-  rw [← List.getD_eq_getElem?_getD]; exact set_getD_self l i d
 
 @[simp] theorem ofTable_id (T : Table) : (ofTable T).id = T.id := rfl
 
@@ -332,14 +330,15 @@ theorem addTable_eq (A : Archetype) (T : Table) (hrel : T.isRel = A.isRel)
           have ct := c2 hr
           simp only [Bool.not_true, Bool.false_eq_true, if_false, hr', ct]
           simp only [ofArch]
-          cases h1 : AL.find? (a.relationTables.getD i []) (T.targets.getD i Ent.zero).id <;>
-            cases h2 : AL.find? a.targetTables (T.targets.getD i Ent.zero).id
-          · simp
-          · rename_i ts
-            cases h3 : AL.find? ts.indices T.id <;> simp [TableIDs.hasIndex, AL.contains, h3]
-          · simp
-          · rename_i ts
-            cases h3 : AL.find? ts.indices T.id <;> simp [TableIDs.hasIndex, AL.contains, h3]
+          simp only [List.getD_eq_getElem?_getD]
+          rcases Option.eq_none_or_eq_some (AL.find? (a.relationTables[i]?.getD []) (T.targets[i]?.getD Ent.zero).id) with h1 | ⟨ts1, h1⟩ <;>
+            rcases Option.eq_none_or_eq_some (AL.find? a.targetTables (T.targets[i]?.getD Ent.zero).id) with h2 | ⟨ts2, h2⟩
+          · simp [h1, h2, newTableIDs_eq]
+          · rcases Option.eq_none_or_eq_some (AL.find? ts2.indices T.id) with h3 | ⟨x3, h3⟩ <;>
+              simp [h1, h2, h3, TableIDs.hasIndex, AL.contains, newTableIDs_eq]
+          · simp [h1, h2, newTableIDs_eq]
+          · rcases Option.eq_none_or_eq_some (AL.find? ts2.indices T.id) with h3 | ⟨x3, h3⟩ <;>
+              simp [h1, h2, h3, TableIDs.hasIndex, AL.contains, newTableIDs_eq]
       · show (if !(a.isRel.getD i false) then a else _).isRel = A.isRel
         split <;> simp [ha]
     · rfl
